@@ -61,6 +61,15 @@ func hexList(pp [][]byte) string {
 
 // history for the reused parser: scripts that fail inside an open conditional, leave one open, or end early
 var histParser = &interpreter.DefaultOpcodeParser{}
+
+// scripts returned by earlier Unparse calls on the long-lived parser, with what they held when returned
+type keptScript struct {
+	got  *bscript.Script
+	want []byte
+	in   string
+}
+
+var keptUnparsed []keptScript
 var histCount int
 var histPrimes = [][]byte{{0x51, 0x63, 0x4c, 0x05, 0x01}, {0x64, 0x4d, 0xff}, {0x51}, {0x63, 0x63, 0x02, 0x01}, {0x63}, {0x63, 0x6a, 0x01}, {0x6a, 0x4c}, {0x63, 0x68, 0x68, 0x4e, 0x01}}
 
@@ -152,6 +161,28 @@ func observe(s []byte) *scriptObs {
 				same = len(ops2) == len(o.ops)
 				for i := 0; same && i < len(ops2); i++ {
 					same = ops2[i].Value() == o.ops[i].Value() && ops2[i].Length() == o.ops[i].Length() && bytes.Equal(ops2[i].Data, o.ops[i].Data)
+				}
+			}
+			if same && e2 == nil {
+				// Unparse on the same long-lived parser: right now, and still after later calls on that parser
+				var us2 *bscript.Script
+				var ue error
+				if p, msg := common.Safely(func() { us2, ue = histParser.Unparse(ops2) }); p {
+					note("Unparse(reused parser)", msg)
+				} else if ue == nil && us2 != nil {
+					if !bytes.Equal(*us2, s) {
+						c.Violate("Unparse/result-depends-on-what-the-parser-did-before", "Unparse(Parse s) != s on a parser that has been used before: "+trunc(common.Hex(*us2)), common.Hex(s))
+					}
+					for _, k := range keptUnparsed {
+						if !bytes.Equal(*k.got, k.want) {
+							c.Violate("Unparse/earlier-result-changed-by-a-later-call-on-the-same-parser", fmt.Sprintf("the script returned for %s now reads %s after Unparse of %s", k.in, trunc(common.Hex(*k.got)), trunc(common.Hex(s))), k.in)
+							break
+						}
+					}
+					keptUnparsed = append(keptUnparsed, keptScript{us2, append([]byte{}, (*us2)...), trunc(common.Hex(s))})
+					if len(keptUnparsed) > 6 {
+						keptUnparsed = keptUnparsed[1:]
+					}
 				}
 			}
 			if !same {
@@ -643,6 +674,37 @@ func main() {
 	// fixed OP_RETURN shapes named in the property
 	for _, h := range []string{"6a", "6a01", "6a0102", "6a4c", "6a4cff01", "006a", "006a4c05", "636a0102", "636a01026851", "636a68", "63686a4c", "686a4c", "68636a4c0a", "516a", "0151", "01ac", "ac", "b2", "6aac", "6a6a6a"} {
 		scriptCase("op-return-shape", common.Unhex(h))
+	}
+	// data scripts (OP_RETURN / OP_FALSE OP_RETURN first) whose pushes are printed as numbers up to 4 bytes and as hex
+	// beyond, with every combination of two complete pushes of 0..5 bytes (all push forms) before a last push, cut at
+	// every position: the cut must show in every decoder whatever was printed before it
+	for _, prefix := range [][]byte{{0x6a}, {0x00, 0x6a}} {
+		for l1 := 0; l1 <= 5; l1++ {
+			for l2 := -1; l2 <= 5; l2++ {
+				for form := 0; form < 2; form++ {
+					full := append([]byte{}, prefix...)
+					for _, l := range []int{l1, l2} {
+						if l < 0 {
+							continue
+						}
+						if form == 1 {
+							full = append(full, 0x4c)
+						}
+						full = append(full, byte(l))
+						for k := 0; k < l; k++ {
+							full = append(full, byte(0x30+l+k))
+						}
+					}
+					full = append(full, 0x05, 'H', 'e', 'l', 'l', 'o')
+					if form == 1 && l1%2 == 1 {
+						full = append(full[:len(full)-6], 0x4d, 0x05, 0x00, 'H', 'e', 'l', 'l', 'o')
+					}
+					for k := len(prefix); k <= len(full); k++ {
+						scriptCase("data-script/short-pushes-then-cut-at-every-position", full[:k])
+					}
+				}
+			}
+		}
 	}
 	// random bytes
 	nRnd := 120
